@@ -964,16 +964,22 @@ impl Parser {
     fn negate_expr_op(expr: &Expr) -> Expr {
         let mut result = expr.clone();
 
-        if let Some(left) = &expr.left {
-            result.left = Some(Box::from(Self::negate_expr_op(left)));
-        }
+        if let Some(logical_op) = &expr.logical_op {
+            // De Morgan: not (a and b) = (not a) or (not b), not (a or b) = (not a) and (not b)
+            result.logical_op = Some(match logical_op {
+                LogicalOp::And => LogicalOp::Or,
+                LogicalOp::Or => LogicalOp::And,
+            });
 
-        if let &Some(op) = &expr.op {
+            if let Some(left) = &expr.left {
+                result.left = Some(Box::from(Self::negate_expr_op(left)));
+            }
+
+            if let Some(right) = &expr.right {
+                result.right = Some(Box::from(Self::negate_expr_op(right)));
+            }
+        } else if let &Some(op) = &expr.op {
             result.op = Some(Op::negate(op));
-        }
-
-        if let Some(right) = &expr.right {
-            result.right = Some(Box::from(Self::negate_expr_op(right)));
         }
 
         result
